@@ -85,6 +85,11 @@ func errorDiscipline(c *Check, r *Repo, f *ssa.Function, noret map[*ssa.Function
 		if cn == "fmt.Errorf" || cn == "errors.New" {
 			return // constructors of error values, not fallible operations
 		}
+		if g := call.Common().StaticCallee(); g != nil && storedErrorGetter(g) {
+			// an accessor of diagnostics kept in the receiver (the collected warnings): it reports what
+			// was stored, nothing failed in it; what happens to warnings is C15's R-strict
+			return
+		}
 		n++
 		if cn == "" {
 			cn = "dynamic:" + call.Common().Value.Name()
@@ -312,8 +317,8 @@ func droppedIdiom(call ssa.CallInstruction, f *ssa.Function, noret map[*ssa.Func
 	case "fmt.Println", "fmt.Printf", "fmt.Print":
 		// allowed only where the function returns right after without producing output (version banner)
 		blk := call.(ssa.Instruction).Block()
-		if _, ok := blk.Instrs[len(blk.Instrs)-1].(*ssa.Return); ok && f.Name() == "main" {
-			return "informational print immediately followed by return from main (no parser requested)"
+		if _, ok := blk.Instrs[len(blk.Instrs)-1].(*ssa.Return); ok && f.Pkg != nil && f.Pkg.Pkg.Name() == "main" {
+			return "informational print immediately followed by return, in the command itself (no parser requested)"
 		}
 	case "(*bytes.Buffer).WriteTo":
 		// best-effort dump: every path from here returns a non-nil error
@@ -459,17 +464,58 @@ func completeBeforeZero(c *Check, r *Repo, compile *ssa.Function, scope []*ssa.F
 		what     string
 	}
 	var stages []stage
-	// Compile: printer Fprint whose writer is the `out` parameter
-	stages = append(stages, stage{compile, func(call ssa.CallInstruction) bool {
-		args := call.Common().Args
-		switch calleeName(call) {
-		case "(*go/printer.Config).Fprint":
-			return len(args) >= 2 && isParam(args[1], "out", compile)
-		case "go/format.Node":
-			return len(args) >= 1 && isParam(args[0], "out", compile)
+	// Compile: printer Fprint / format.Node whose writer is the `out` parameter — called by Compile itself or by a
+	// helper of the package that is handed `out` (each such helper is a stage of its own: what it returns is judged too)
+	staged := map[*ssa.Function]bool{}
+	var writerStage func(g *ssa.Function, w string) bool
+	writerStage = func(g *ssa.Function, w string) bool {
+		if staged[g] {
+			return true
 		}
-		return false
-	}, "(*printer.Config).Fprint(out, …) or format.Node(out, …)"})
+		direct := func(call ssa.CallInstruction) bool {
+			args := call.Common().Args
+			switch calleeName(call) {
+			case "(*go/printer.Config).Fprint":
+				return len(args) >= 2 && isParam(args[1], w, g)
+			case "go/format.Node":
+				return len(args) >= 1 && isParam(args[0], w, g)
+			}
+			return false
+		}
+		viaHelper := func(call ssa.CallInstruction) bool {
+			h := call.Common().StaticCallee()
+			if h == nil || len(h.Blocks) == 0 || h == g || h.Pkg != g.Pkg || len(staged) > 8 {
+				return false
+			}
+			for j, a := range call.Common().Args {
+				if isParam(a, w, g) && j < len(h.Params) {
+					staged[g] = true
+					ok := writerStage(h, h.Params[j].Name())
+					delete(staged, g)
+					if ok {
+						return true
+					}
+				}
+			}
+			return false
+		}
+		isFinish := func(call ssa.CallInstruction) bool { return direct(call) || viaHelper(call) }
+		found := false
+		instrsOf(g, func(in ssa.Instruction) {
+			if call, ok := in.(ssa.CallInstruction); ok && isFinish(call) {
+				found = true
+			}
+		})
+		if !found {
+			return false
+		}
+		staged[g] = true
+		stages = append(stages, stage{g, isFinish, "(*printer.Config).Fprint(out, …) or format.Node(out, …), directly or in a helper handed the writer"})
+		return true
+	}
+	if !writerStage(compile, "out") {
+		stages = append(stages, stage{compile, func(ssa.CallInstruction) bool { return false }, "(*printer.Config).Fprint(out, …) or format.Node(out, …)"})
+	}
 	for _, f := range scope {
 		f := f
 		if f.Pkg == nil || f.Pkg.Pkg.Name() != "main" {
@@ -807,4 +853,79 @@ func exitsOnNonNil(g *ssa.Function, p *ssa.Parameter, noret map[*ssa.Function]bo
 		}
 	}
 	return false
+}
+
+// storedErrorGetter: a function of the repository whose error result is made
+// of values loaded from its receiver's fields only (as they are, or joined with
+// errors.Join) — an accessor, not an operation that can fail.
+func storedErrorGetter(g *ssa.Function) bool {
+	if len(g.Blocks) == 0 || g.Signature.Recv() == nil || len(g.Params) != 1 {
+		return false
+	}
+	res := g.Signature.Results()
+	if res.Len() != 1 || !isErrorType(res.At(0).Type()) {
+		return false
+	}
+	recv := g.Params[0]
+	var fromFields func(v ssa.Value, seen map[ssa.Value]bool) bool
+	fromFields = func(v ssa.Value, seen map[ssa.Value]bool) bool {
+		if seen[v] {
+			return true
+		}
+		seen[v] = true
+		switch x := v.(type) {
+		case *ssa.Const:
+			return x.IsNil()
+		case *ssa.UnOp:
+			if x.Op == token.MUL {
+				if fa, ok := x.X.(*ssa.FieldAddr); ok && fa.X == ssa.Value(recv) {
+					return true
+				}
+			}
+			return false
+		case *ssa.Slice:
+			return fromFields(x.X, seen)
+		case *ssa.Phi:
+			for _, e := range x.Edges {
+				if !fromFields(e, seen) {
+					return false
+				}
+			}
+			return true
+		case *ssa.Call:
+			if calleeName(x) == "errors.Join" {
+				for _, a := range x.Call.Args {
+					if !fromFields(a, seen) {
+						return false
+					}
+				}
+				return true
+			}
+			return false
+		case *ssa.MakeInterface:
+			return fromFields(x.X, seen)
+		case *ssa.ChangeType:
+			return fromFields(x.X, seen)
+		}
+		return false
+	}
+	ok := true
+	nret := 0
+	instrsOf(g, func(in ssa.Instruction) {
+		if ret, isRet := in.(*ssa.Return); isRet && len(ret.Results) == 1 {
+			nret++
+			if !fromFields(ret.Results[0], map[ssa.Value]bool{}) {
+				ok = false
+			}
+		}
+	})
+	// and it calls nothing that can fail
+	instrsOf(g, func(in ssa.Instruction) {
+		if call, isCall := in.(ssa.CallInstruction); isCall {
+			if n := calleeName(call); n != "errors.Join" && n != "builtin.len" {
+				ok = false
+			}
+		}
+	})
+	return ok && nret > 0
 }
